@@ -54,6 +54,15 @@ def citations : List (Lean.Name × String × List String) := [
   (``Hts.Props.C11.ltf8_decode_total, "ops", ["cram/encoding/ltf8.Decode"]),
   (``Hts.Props.C11.itf8_stream_total, "ops", ["cram.errorReader.itf8"]),
   (``Hts.Props.C11.ltf8_stream_total, "ops", ["cram.errorReader.ltf8"]),
+  (``Hts.Props.C11.cramNum_total, "ops", ["cram.errorReader.itf8", "cram.errorReader.ltf8"]),
+  (``Hts.Props.C11.cramItf8slice_total, "ops", ["cram.errorReader.itf8slice"]),
+  (``Hts.Props.C11.cramItf8slice_make_bound, "ops", ["cram.errorReader.itf8slice"]),
+  (``Hts.Props.C11.cramDefinition_total, "ops", ["cram.definition.readFrom"]),
+  (``Hts.Props.C11.cramContainer_total, "ops", ["cram.Container.readFrom", "cram.errorReader.itf8slice"]),
+  (``Hts.Props.C11.cramBlock_total, "ops", ["cram.Block.readFrom"]),
+  (``Hts.Props.C11.cramBlock_make_bound, "ops", ["cram.Block.readFrom"]),
+  (``Hts.Props.C11.cramSlice_total, "ops", ["cram.Slice.readFrom", "cram.errorReader.itf8slice"]),
+  (``Hts.Props.C11.cramBlockValue_total, "ops", ["cram.Block.Value", "cram.Block.expandBlockdata", "cram.Slice.readFrom"]),
   (``Hts.Props.C11.readBAI_total, "ops",
     ["internal.readBins", "internal.readChunks", "internal.readIndices", "internal.readIntervals"]),
   (``Hts.Props.C11.readTabix_total, "ops",
